@@ -28,7 +28,7 @@ PROBES = {"C19": ["second_crash_during_resume", "crash_between_train_and_test_pr
                   "overwrite_run", "rerun_same_process", "presplit_cv",
                   "clock_backwards_seen", "kill_not_exception",
                   "options_changed_between_runs", "ram_store", "features_reordered", "benchmark_extended_later",
-                  "target_column_not_last", "label_aware_cv", "tuning_meta_estimator",
+                  "target_column_not_last", "strategy_reconfigured_between_runs", "strategy_reconfigured_in_live_process", "label_aware_cv", "tuning_meta_estimator",
                   "presplit_labels_interleaved"]}
 FAULT_KINDS = {"C19": ["peer_raises@k", "crash_restart", "rerun_same_process",
                        "clock_jump_fwd", "clock_jump_back"]}
@@ -127,12 +127,23 @@ def generate(prop, rng, tier):
                 r_["strategies"] = strategies[:-1]
                 r_["restart"] = True
         runs[first_full]["restart"] = True
+    tuned = rng.sample(strategies, 1) if rng.random() < 0.25 else []
+    if not tuned and len(runs) >= 2 and not any(r_["opts"]["save_fitted_strategies"] for r_ in runs) \
+            and rng.random() < 0.5:
+        # one strategy's estimator gets another hyper-parameter before a later run, which then
+        # (mostly) recomputes everything
+        j = rng.randint(1, len(runs) - 1)
+        runs[j]["retune"] = {"strategy": rng.choice(strategies), "salt": rng.randint(1, 5)}
+        if rng.random() < 0.7:
+            runs[j]["opts"]["overwrite_predictions"] = True
+        if rng.random() < 0.7:
+            runs[j]["restart"] = False
     scen = {
         "kind": kind, "store": store, "datasets": datasets,
         "data_seed": rng.randint(0, 10 ** 6), "strategies": strategies,
         "features": features, "cv": cv, "runs": runs,
         # strategies whose estimator is a tuning meta-estimator around the estimator
-        "tuned": rng.sample(strategies, 1) if rng.random() < 0.25 else [],
+        "tuned": tuned,
         "enumerate_first": store == "hdd",
         "second_crash_frac": rng.random() if rng.random() < 0.6 else None,
         "second_crash_mod": rng.randrange(3),
@@ -265,6 +276,8 @@ class World:
         self.shared = shared
         self.data_dir = shared.data_dir   # read-only input files of the scenario
         self.raw = shared.raw
+        self.salts = {}            # strategy name -> current hyper-parameter of its estimator
+        self.user_strategies = []  # the strategy objects the user handed to the live Orchestrator
 
     def make_cv(self):
         from sklearn.model_selection import KFold, StratifiedKFold
@@ -327,8 +340,10 @@ class World:
             out.append(T(target="target", features=feats))
         return out
 
-    def make_estimator(self, name):
-        spy = peers.SpyClassifier(tag=name) if self.scen["kind"] == "tsc" else peers.SpyRegressor(tag=name)
+    def make_estimator(self, name, salt=None):
+        salt = self.salts.get(name, 0) if salt is None else salt
+        spy = peers.SpyClassifier(tag=name, salt=salt) if self.scen["kind"] == "tsc" \
+            else peers.SpyRegressor(tag=name, salt=salt)
         if name in (self.scen.get("tuned") or []):
             # the strategy's estimator is a tuning meta-estimator (scikit-learn grid search)
             return peers.quiet_search(spy)
@@ -348,8 +363,9 @@ class World:
             results = HDDResults(path=self.results_dir)
         else:
             results = RAMResults()
+        self.user_strategies = self.make_strategies(names)
         orch = Orchestrator(tasks=self.make_tasks(), datasets=self.make_datasets(),
-                            strategies=self.make_strategies(names), cv=self.make_cv(),
+                            strategies=self.user_strategies, cv=self.make_cv(),
                             results=results)
         return orch
 
@@ -409,7 +425,16 @@ class Model:
         if sh.truth is None:
             with peers.paused():
                 sh.truth = self._truth()
-        self.truth = sh.truth
+        self.truth = dict(sh.truth)   # (own copy: a strategy may be re-configured in this history)
+
+    def retune(self, s, salt):
+        """The user changed a hyper-parameter of strategy s: what it computes from now on."""
+        sh = self.w.shared
+        cache = sh.__dict__.setdefault("truth_cache", {})
+        if (s, salt) not in cache:
+            with peers.paused():
+                cache[(s, salt)] = self._truth(only=s, salt=salt)
+        self.truth.update(cache[(s, salt)])
 
     def features(self, frame):
         if self.scen["features"] == "first":
@@ -419,13 +444,15 @@ class Model:
             return list(reversed(cols))
         return cols
 
-    def _truth(self):
+    def _truth(self, only=None, salt=None):
         """Expected record for every unit: clone of the estimator fitted on the
         fold's training instances, predicting the recorded instances."""
         from sklearn.base import clone
         truth = {}
         for s in self.scen["strategies"]:
-            est0 = self.w.make_estimator(s)
+            if only is not None and s != only:
+                continue
+            est0 = self.w.make_estimator(s, salt=salt if only is not None else 0)
             for dname, frame in self.frames.items():
                 feats = self.features(frame)
                 for f, (tr, te) in enumerate(self.fold_map[dname]):
@@ -592,6 +619,18 @@ class History:
         opts = run["opts"]
         names = run.get("strategies")
         fresh = run["restart"] or self.orch is None or names != self.live_names
+        rt = run.get("retune")
+        if rt:
+            # between two runs the user changes a hyper-parameter of one strategy's estimator:
+            # on the strategy object they hold (same process) / when building it (new process)
+            self.world.salts[rt["strategy"]] = rt["salt"]
+            model.retune(rt["strategy"], rt["salt"])
+            res.probe("strategy_reconfigured_between_runs")
+            if not fresh:
+                for st_ in self.world.user_strategies:
+                    if st_.name == rt["strategy"]:
+                        st_.set_params(estimator__salt=rt["salt"])
+                        res.probe("strategy_reconfigured_in_live_process")
         if fresh:
             if self.orch is not None:
                 res.fault("crash_restart")
